@@ -85,8 +85,54 @@ fn expected_since(recs: &[Rec], since: u64) -> BTreeMap<String, u8> {
     latest.into_iter().filter(|(_, (t, _))| *t >= since).map(|(k, (_, o))| (k, o)).collect()
 }
 
+/// A node whose databases d1 / d2 carry the ids 1 / 2 and whose key map knows the ids 10..15 as k10..k15: the records
+/// the child writes decode against it, so the catch-up a primary would SEND for a `replicate-since` can be asked for
+/// as well (replication_ops::get_pendding_opps_since, the consumer of the log query).
+fn catchup_dbs() -> Option<&'static std::sync::Arc<nundb::bo::Databases>> {
+    static DBS: std::sync::OnceLock<Option<std::sync::Arc<nundb::bo::Databases>>> = std::sync::OnceLock::new();
+    DBS.get_or_init(|| {
+        let (rs, rr) = futures::channel::mpsc::channel(100000);
+        let (ss, sr) = futures::channel::mpsc::channel(100000);
+        std::mem::forget(rr);
+        std::mem::forget(sr);
+        let dbs = std::sync::Arc::new(nundb::bo::Databases::new("admin".into(), "pwd".into(), "127.0.0.1:1".into(), "127.0.0.1:1".into(), rs, ss, std::collections::HashMap::new(), 1, true));
+        let mut adm = crate::common::session::Session::new();
+        adm.call(&dbs, "auth admin pwd");
+        adm.call(&dbs, "create-db d1 tok1");
+        adm.call(&dbs, "create-db d2 tok2");
+        {
+            let names = dbs.id_name_db_map.read().unwrap();
+            if names.get(&1).map(|s| s.as_str()) != Some("d1") || names.get(&2).map(|s| s.as_str()) != Some("d2") {
+                return None;
+            }
+        }
+        let mut ids = dbs.id_keys_map.write().unwrap();
+        for k in 10u64..=15 {
+            ids.insert(k, format!("k{}", k));
+        }
+        drop(ids);
+        Some(dbs)
+    })
+    .as_ref()
+}
+
+/// (database, key / record family) and kind of one catch-up command, in the namespace of `expected_since`
+fn classify_catch_up(line: &str) -> Option<(String, u8)> {
+    let w: Vec<&str> = line.split(' ').collect();
+    let dbid = |n: &str| match n { "d1" => Some(1), "d2" => Some(2), _ => None };
+    let keyid = |k: &str| k.strip_prefix('k').and_then(|x| x.parse::<u64>().ok());
+    match w.first().copied() {
+        Some("replicate") => Some((format!("{}_{}", dbid(w.get(1)?)?, keyid(w.get(2)?)?), 0)),
+        Some("replicate-remove") => Some((format!("{}_{}", dbid(w.get(1)?)?, keyid(w.get(2)?)?), 1)),
+        Some("create-db") => Some((format!("{}_create-db", dbid(w.get(1)?)?), 2)),
+        Some("replicate-snapshot") => Some((format!("{}_snapshot", dbid(w.get(1)?)?), 3)),
+        _ => None,
+    }
+}
+
 struct ChildOut {
     queries: u64,
+    catch_up_queries: u64,
     logs: u64,
     shapes: BTreeSet<String>,
     problems: Vec<(serde_json::Value, serde_json::Value)>,
@@ -153,6 +199,34 @@ fn check_log(dir: &str, tag: &str, out: &mut ChildOut, sinces_extra: &[u64]) {
             Err(e) => out.problems.push((json!({"check": "oplog", "problem": "query-panicked", "since": pos}), json!({"tag": tag, "since": since, "msg": panic_msg(&e), "files": per_file}))),
             Ok(map) => {
                 let got: BTreeMap<String, u8> = map.iter().map(|(k, r)| (k.clone(), r.opp.to_u8())).collect();
+                // the consumer of the query: the commands a primary sends to a node that reports `since` as its last
+                // operation. Every (database, key) with a record at or after `since` must be named by a command of the
+                // kind of its newest record (judged only where the query itself is right, so nothing is reported twice)
+                if got == exp && since != 0 {
+                    if let Some(dbs) = catchup_dbs() {
+                        out.catch_up_queries += 1;
+                        match std::panic::catch_unwind(std::panic::AssertUnwindSafe(|| nundb::replication_ops::get_pendding_opps_since(since, dbs))) {
+                            Err(e) => out.problems.push((json!({"check": "catch-up-commands", "problem": "catch-up-panicked", "since": pos}), json!({"tag": tag, "since": since, "msg": panic_msg(&e), "files": per_file}))),
+                            Ok(lines) => {
+                                let mut sent: BTreeMap<String, u8> = BTreeMap::new();
+                                for l in &lines {
+                                    if let Some((k, o)) = classify_catch_up(l) {
+                                        sent.insert(k, o);
+                                    }
+                                }
+                                let missing: Vec<&String> = exp.keys().filter(|k| !sent.contains_key(*k)).collect();
+                                let wrong: Vec<&String> = exp.iter().filter(|(k, o)| sent.get(*k).map(|g| g != *o).unwrap_or(false)).map(|(k, _)| k).collect();
+                                if !missing.is_empty() || !wrong.is_empty() {
+                                    let kind = if !missing.is_empty() { "no-command-for-an-operation-at-or-after-since" } else { "command-of-the-wrong-kind" };
+                                    if out.problems.len() < 400 {
+                                        out.problems.push((json!({"check": "catch-up-commands", "problem": kind, "since": pos, "files": if per_file.len() > 1 {"rotated"} else {"single"}}),
+                                            json!({"tag": tag, "since": since, "records": recs.iter().map(|r| json!([r.time, r.db, r.key, r.op])).collect::<Vec<_>>(), "expected": exp, "commands": lines, "missing": missing, "wrong_kind": wrong})));
+                                    }
+                                }
+                            }
+                        }
+                    }
+                }
                 if got != exp {
                     let missing: Vec<&String> = exp.keys().filter(|k| !got.contains_key(*k)).collect();
                     let extra: Vec<&String> = got.keys().filter(|k| !exp.contains_key(*k)).collect();
@@ -227,7 +301,7 @@ pub fn child(args: &[String]) -> i32 {
     let thorough = args[5] == "thorough";
     let dir = fresh_dir(&format!("c12-{}", size));
     nundb::verif::set_dir(Some(dir.clone()));
-    let mut out = ChildOut { queries: 0, logs: 0, shapes: BTreeSet::new(), problems: vec![], samples: vec![], max_files: 0, prune_checks: 0 };
+    let mut out = ChildOut { queries: 0, catch_up_queries: 0, logs: 0, shapes: BTreeSet::new(), problems: vec![], samples: vec![], max_files: 0, prune_checks: 0 };
     let mut rng = Rng::new(seed0 ^ size);
     let per_file = (size / 10) / 25;
     // ---- systematic short logs
@@ -359,7 +433,7 @@ pub fn child(args: &[String]) -> i32 {
     }
     let doc = json!({
         "rounds_written_while_a_reader_was_at_work": raced,
-        "queries": out.queries, "logs": out.logs, "shapes": out.shapes.iter().cloned().collect::<Vec<_>>(), "max_files": out.max_files, "prune_checks": out.prune_checks,
+        "queries": out.queries, "catch_up_queries": out.catch_up_queries, "logs": out.logs, "shapes": out.shapes.iter().cloned().collect::<Vec<_>>(), "max_files": out.max_files, "prune_checks": out.prune_checks,
         "problems": out.problems.iter().map(|(s, r)| json!({"sig": s, "replay": r})).collect::<Vec<_>>(), "samples": out.samples,
     });
     println!("{}", doc);
@@ -384,6 +458,7 @@ pub fn run(tier: &str) -> i32 {
         children.push((*s, c));
     }
     let mut queries = 0u64;
+    let mut catch_up_queries = 0u64;
     let mut logs = 0u64;
     let mut shapes: BTreeSet<String> = BTreeSet::new();
     let mut max_files = 0u64;
@@ -398,6 +473,7 @@ pub fn run(tier: &str) -> i32 {
         let line = txt.lines().last().unwrap_or("{}");
         let doc: serde_json::Value = serde_json::from_str(line).unwrap_or(json!({}));
         queries += doc["queries"].as_u64().unwrap_or(0);
+        catch_up_queries += doc["catch_up_queries"].as_u64().unwrap_or(0);
         logs += doc["logs"].as_u64().unwrap_or(0);
         prune += doc["prune_checks"].as_u64().unwrap_or(0);
         max_files = max_files.max(doc["max_files"].as_u64().unwrap_or(0));
@@ -420,6 +496,7 @@ pub fn run(tier: &str) -> i32 {
     ev.rule = format!("one child process per NUN_MAX_OP_LOG_SIZE in {:?}; per size: systematic logs of 0-12 records over 2 dbs x 3 keys x 4 kinds with strictly and non-strictly increasing timestamps + random logs of 20-5000 records (6 keys) that force up to {} files, written with the real writer (try_write_op_log incl. rotation, writer reopened as a restart does), queried for since in {{0, each record time, each +-1, after last}}; then the timer action (pruning) and the same queries again. distinct_nontrivial = distinct (position of since, number of files, strict/equal timestamps, log length class, size) query shapes", sizes, max_files);
     ev.set("logs_written", json!(logs));
     ev.set("queries_compared_with_linear_scan", json!(queries));
+    ev.set("catch_up_command_lists_compared_with_linear_scan", json!(catch_up_queries));
     ev.set("pruning_checks", json!(prune));
     ev.set("max_files_in_one_log", json!(max_files));
     ev.set("known_findings_seen", json!(v.known_seen()));
